@@ -12,8 +12,10 @@ import (
 // leaderboard MV.Spec.Leaderboard (spec).
 
 type rankRunner struct {
-	r      *ranking.BinarySearch[int, int]
-	events [][]int
+	r        *ranking.BinarySearch[int, int]
+	events   [][]int
+	wd       watchdog
+	poisoned bool // an operation of this case hung: the instance is abandoned
 }
 
 func (r *rankRunner) mk(asc bool, cnt *int) {
@@ -30,7 +32,18 @@ func (r *rankRunner) mk(asc bool, cnt *int) {
 	})
 }
 
-func (r *rankRunner) Reset() { r.mk(false, nil) }
+func (r *rankRunner) Reset() { r.poisoned = false; r.mk(false, nil) }
+
+func (r *rankRunner) Step(t []string) string {
+	if r.poisoned {
+		return "skipped"
+	}
+	out, hung := r.wd.run(func() string { return r.step(t) })
+	if hung {
+		r.poisoned = true
+	}
+	return out
+}
 
 func rankErr(err error) string {
 	switch err {
@@ -44,7 +57,7 @@ func rankErr(err error) string {
 	return "err:?"
 }
 
-func (r *rankRunner) Step(t []string) string {
+func (r *rankRunner) step(t []string) string {
 	switch t[0] {
 	case "new":
 		if len(t) != 3 || (t[1] != "0" && t[1] != "1") {
@@ -165,7 +178,7 @@ func rankGen(rng *proto.RNG, tier string, shard, nshards int, w *bufio.Writer) {
 	type cfg struct{ capa, maxLen, maxScore int }
 	cfgs := []cfg{{1, 6, 2}, {2, 5, 2}, {3, 5, 1}, {4, 4, 3}}
 	if tier == "thorough" {
-		cfgs = []cfg{{1, 7, 3}, {2, 6, 3}, {3, 6, 2}, {4, 5, 3}}
+		cfgs = []cfg{{1, 7, 2}, {2, 6, 2}, {3, 5, 3}, {4, 5, 2}}
 	}
 	for _, c := range cfgs {
 		nid := c.capa + 1
